@@ -144,7 +144,14 @@ func c01Workload(ctx *lib.Ctx, nSkel, total int) {
 			}
 			target := fmt.Sprintf("T%d", spec.Base)
 			forms := []lib.F{root, lib.Rewrite(root, r), lib.Rewrite(lib.Rewrite(root, r), r)}
+			classes := []string{target, target, target}
+			if !sweep {
+				// the same formula over the second class some of the targets belong to
+				forms = append(forms, root)
+				classes = append(classes, fmt.Sprintf("X%d", spec.Base))
+			}
 			for k, f := range forms {
+				target := classes[k]
 				name := fmt.Sprintf("v%d_%d", fam, k)
 				prof.Validations = append(prof.Validations, lib.Validation{Name: name, TargetClass: "ex." + target, Message: "m " + name, Body: w.ToExpr(f, r)})
 				prof.Violation = append(prof.Violation, name)
@@ -166,6 +173,13 @@ func c01Workload(ctx *lib.Ctx, nSkel, total int) {
 		// What a profile means must not depend on which other profiles the process compiled before it.
 		idOf := func(id string) string { return id }
 		switch (i / 16) % 4 { // workers take the cases i = k mod 16: modes alternate inside every worker
+		case 1:
+			// the profile's own prefix bound to a namespace that does not end in '/' (nor, mostly, in '#')
+			ns := lib.Namespaces[1+(i/64)%(len(lib.Namespaces)-1)]
+			ptext = strings.Replace(ptext, "  ex: "+lib.EX+"\n", "  ex: \""+ns+"\"\n", 1)
+			dtext = lib.Rebase(dtext, lib.EX, ns)
+			idOf = func(id string) string { return strings.Replace(id, lib.EX, ns, 1) }
+			ctx.Count("profiles_over_namespaces_without_trailing_slash", 1)
 		case 2:
 			const coreNS = "http://a.ml/vocabularies/core#"
 			ptext = strings.Replace(renameInProfileText(ptext, "core"), "prefixes:\n  ex: "+lib.EX+"\n", "", 1)
